@@ -13,6 +13,7 @@ WEIGHTS = {
     "bundle.is_downto=": 0, "bundle.lower_index=": 0, "port.direction=": 0, "bundle.is_scalar=": 0,
     "bundle.is_array=": 0, "el.set": 0, "el.del": 0, "el.pop": 0, "cable.wires=": 0,
     "nl.libraries=": 0, "lib.definitions=": 0, "def.cables=": 0,
+    "el.clone_container": 2, "el.clone": 1,
 }
 
 
